@@ -32,8 +32,26 @@ def model_check(chk: Check, apalache: bool = True) -> None:
     if "NoKeyError" not in r.violated:
         raise MachineryError("ProvideRefs without VisibleAlive should be refuted (vacuity guard)")
     chk.add("providerefs_noassume_counterexample_found", 1)
+    tlaps_proof(chk)
     if apalache:
         finish_apalache(chk, start_apalache())
+
+
+def tlaps_proof(chk: Check) -> None:
+    """The TLAPS proof (ProvideRefs_proofs.tla): for ARBITRARY sets of providers and referrers IndInv is inductive
+    (Spec => []IndInv) and implies NoKeyError / OpenAlive / InjectSound / Quiescent.  Every obligation must be proved."""
+    if not shutil.which("tlapm"):
+        chk.add("tlaps_unavailable", 1)
+        return
+    w = workdir("tlaps")
+    p = subprocess.run(["tlapm", "--cleanfp", "--cache-dir", str(w / "cache"), "-I", "/opt/veriftools/tlapm/lib/tlaps",
+                        "--threads", "4", str(SPECS / "ProvideRefs_proofs.tla")],
+                       capture_output=True, text=True, timeout=1200, cwd=str(SPECS))
+    out = p.stdout + p.stderr
+    m = re.search(r"All (\d+) obligations? proved", out)
+    if not m or p.returncode != 0:
+        raise MachineryError("TLAPS proof of ProvideRefs failed:\n" + out[-2000:])
+    chk.add("tlaps_obligations_proved", int(m.group(1)))
 
 
 def start_apalache():
